@@ -156,3 +156,9 @@ Proof.
     + rewrite (tinsert_fresh _ tt Hfresh). rewrite (IH _ Hrest Hnd'). rewrite <- app_assoc. reflexivity.
     + rewrite (tinsert_fresh _ tt Hfresh). rewrite (IH _ Hrest Hnd'). rewrite <- app_assoc. reflexivity.
 Qed.
+
+Lemma load_loop_roundtrip cap s1 s2 rs :
+  (forall r, In r rs -> (r_state r =? 2)%Z = true /\ rec_ok s1 r = true) ->
+  NoDup (map r_cid rs) ->
+  load_loop cap (Some s1) (Some s2) rs [] = Ok (map (restored cap s2) rs).
+Proof. intros H1 H2. exact (load_loop_all_ok cap s1 s2 rs [] H1 H2). Qed.
